@@ -46,7 +46,12 @@ fn wide_program(k: usize) -> String {
             "FUNCTION_BLOCK FB{i} IMPLEMENTS I{i}\nVAR_INPUT d : INT; END_VAR\nVAR_OUTPUT total : INT; END_VAR\nVAR s : S{i}; e : E{i}; END_VAR\nMETHOD PUBLIC Get{i} : INT\n    Get{i} := total;\nEND_METHOD\nMETHOD PUBLIC Bump{i} : INT\nVAR_INPUT amt : INT; END_VAR\n    total := total + amt;\n    Bump{i} := total;\nEND_METHOD\n    total := total + d;\n    s.a := total;\nEND_FUNCTION_BLOCK\n\n"
         ));
     }
-    s.push_str("CONFIGURATION Conf\nVAR_GLOBAL\n");
+    for i in 0..k {
+        s.push_str(&format!(
+            "CLASS K{i}\nVAR PUBLIC\n    kv : DINT := DINT#{i};\nEND_VAR\nMETHOD PUBLIC Step{i} : DINT\nVAR_INPUT amt : DINT; END_VAR\n    kv := kv + amt;\n    Step{i} := kv;\nEND_METHOD\nEND_CLASS\n\n"
+        ));
+    }
+    s.push_str("CONFIGURATION Conf\nVAR_GLOBAL\n    trail : DINT := 0;\n");
     for i in 0..k {
         s.push_str(&format!("    g{i} : DINT := {i};\n"));
     }
@@ -63,8 +68,13 @@ fn wide_program(k: usize) -> String {
     }
     s.push_str("END_CONFIGURATION\n\n");
     for i in 0..k {
-        s.push_str(&format!("PROGRAM Main{i}\nVAR\n    fb : FB{i};\n    r : DINT;\n    q : INT;\nEND_VAR\n"));
-        s.push_str(&format!("    fb(d := {});\n    q := fb.Bump{i}(amt := 2);\n    r := F{i}(x := g{i}, y := r);\n    g{i} := g{i} + 1;\nEND_PROGRAM\n\n", i + 1));
+        s.push_str(&format!("PROGRAM Main{i}\nVAR\n    fb : FB{i};\n    ko : K{i};\n    r : DINT;\n    q : INT;\n    w : DINT;\nEND_VAR\n"));
+        // `trail` makes the programs order-sensitive on shared state
+        s.push_str(&format!(
+            "    fb(d := {});\n    q := fb.Bump{i}(amt := 2);\n    r := F{i}(x := g{i}, y := r);\n    w := ko.Step{i}(amt := DINT#3);\n    g{i} := g{i} + 1;\n    trail := (trail * DINT#10 + DINT#{}) MOD DINT#100000007;\nEND_PROGRAM\n\n",
+            i + 1,
+            i + 1
+        ));
     }
     s
 }
@@ -239,6 +249,11 @@ fn explore_orders(text: &str, bound: usize, deadline: Instant) -> Result<OrderSt
             }
         }
         let same = matches!(&res, Ok(Ok(b)) if *b == baseline);
+        if !same && prefix.is_empty() {
+            // differs already under std order: two compilations in the same thread disagree
+            st.violation = Some((Vec::new(), "RECOMPILE".into()));
+            break;
+        }
         if !same && st.violation.is_none() {
             let what = match res {
                 Ok(Ok(b)) => format!("container differs from the std-order container ({} vs {} bytes, first difference at byte {})", b.len(), baseline.len(), b.iter().zip(&baseline).position(|(x, y)| x != y).unwrap_or(b.len().min(baseline.len()))),
@@ -308,6 +323,14 @@ pub fn run(ctx: &Ctx) -> EngineResult {
             exhaustive = false;
         }
         if let Some((choices, what)) = st.violation {
+            if what == "RECOMPILE" {
+                rep.violation(Violation {
+                    signature: "C05/container-differs/same-thread-recompile".into(),
+                    what: format!("program {name}: compiling the same source twice in one thread yields different containers"),
+                    case: json!({"kind": "sweep", "name": name, "text": text}),
+                });
+                continue;
+            }
             rep.violation(Violation {
                 signature: "C05/order-dependent-container/encoder-hash-iteration".into(),
                 what: format!("program {name}: {what}"),
